@@ -217,7 +217,7 @@ CHECKS = {
         level="model_checking",
         clauses={"meta", "trace-names", "trace-group", "trace-export-columns", "trace-unknown-input", "trace-sql-limit",
                  "trace-sql-filtered", "trace-sql-grouped", "trace-dtype", "trace-export-dtype", "names", "errclass", "accept"},
-        phases=dict(quick=[dict(kind="verbnames"), dict(kind="joinnames"), dict(profile="core2"), dict(profile="join2"), dict(profile="union2"), dict(profile="hidsub4"),
+        phases=dict(quick=[dict(kind="cachegraph", stride=4), dict(kind="verbnames"), dict(kind="joinnames"), dict(profile="core2"), dict(profile="join2"), dict(profile="union2"), dict(profile="hidsub4"),
                            dict(kind="tracemeta", profiles=[("core2", 400), ("join2", 300), ("agg3", 300)])],
                     thorough=[dict(profile="hidsub4"), dict(kind="verbnames", cols=["a", "b", "c", "x"], keys=["a", "b", "c", "x", "z"], vals=["a", "b", "c", "x", "y"]),
                               dict(kind="joinnames", lu=["a", "b", "a_t2", "b_t2", "a_t2_1", "b_t2_1", "a_t2_2", "a_x"], ru=["a", "b", "c", "a_t2", "b_t2"]),
